@@ -42,7 +42,8 @@ FRAME_ASSEMBLY = {
     "call:P.annotations.setdefault", "call:P.annotations[K].append",   # reference list of the product
     "P.id", "P.name", "P.annotations[K]",  # _annotate_assembly, on the product
 }
-FRAME_UTILS = {"call:P.features.append"}   # add_as_source: on the destination record (a fresh fragment: contract)
+# add_as_source: on the destination record (a fresh fragment: contract) -- whichever list operation puts the feature in
+FRAME_UTILS = {"call:P.features.append", "call:P.features.insert", "call:P.features.extend", "P.features[:]"}
 
 
 def obligations(ctx):
